@@ -37,13 +37,249 @@ class Src:
     def path(self, rel):
         return os.path.join(self.repo, "src", rel)
 
+    def raw_toks(self, rel):
+        p = self.path(rel)
+        if not os.path.exists(p):
+            raise TranslateError(f"src/{rel}: file not found")
+        return tokenize(open(p).read(), "src/" + rel)
+
     def toks(self, rel):
+        """tokens of a source file, with the fields of `generator::names::Names` renamed to canonical names:
+        what an `ident_*` interpolation denotes is read from generator/names.rs, not from how the field is spelt"""
         if rel not in self.cache:
-            p = self.path(rel)
-            if not os.path.exists(p):
-                raise TranslateError(f"src/{rel}: file not found")
-            self.cache[rel] = tokenize(open(p).read(), "src/" + rel)
+            self.cache[rel] = self.inline_fragments(self.inline_helpers(self.renamed_toks(rel), rel), rel)
         return self.cache[rel]
+
+    def renamed_toks(self, rel):
+        ren = self.names_rename()
+        ts = self.raw_toks(rel)
+        for t in ts:
+            if t.kind == "ident" and t.text in ren:
+                t.text = ren[t.text]
+        return ts
+
+    # ---- macro-time helper functions that return a piece of template
+    NOT_HELPERS = {"generate", "parse", "check", "new"}
+
+    def helper_fns(self):
+        """{name: (file, [(param, type text)], body tokens)} of every fn under src/feature and src/generator that returns a
+        `TokenStream`, is not an entry point, and whose body is destructuring `let`s followed by a single `quote!`"""
+        if getattr(self, "_helpers", None) is not None:
+            return self._helpers
+        self._helpers = {}
+        rels = []
+        for dp, _, fns in sorted(os.walk(self.path("feature"))):
+            rels += [os.path.relpath(os.path.join(dp, f), self.path("")) for f in sorted(fns) if f.endswith(".rs")]
+        for rel in rels:
+            ts = self.renamed_toks(rel)
+            i = 0
+            while i < len(ts) - 2:
+                if ts[i].text == "fn" and ts[i + 1].kind == "ident" and (i == 0 or ts[i - 1].text != "#"):
+                    name = ts[i + 1].text
+                    j = i + 2
+                    if ts[j].text == "<":       # lifetimes / generics
+                        d = 0
+                        while True:
+                            d += (ts[j].text == "<") - (ts[j].text == ">")
+                            j += 1
+                            if d == 0:
+                                break
+                    if ts[j].text != "(":
+                        i += 1
+                        continue
+                    pe = match_close(ts, j)
+                    k = pe + 1
+                    ret = []
+                    while ts[k].text not in ("{", ";"):
+                        ret.append(ts[k].text)
+                        k += 1
+                    if ts[k].text == "{":
+                        be = match_close(ts, k)
+                        body = ts[k + 1:be]
+                        txt = text_of(body)
+                        is_ts = " ".join(ret) in ("-> TokenStream", "-> proc_macro2 :: TokenStream")
+                        qpos = [x for x in range(len(body) - 1) if body[x].text == "quote" and body[x + 1].text == "!"]
+                        outside = text_of(body[:qpos[0]]) if len(qpos) == 1 else ""
+                        tail_ok = len(qpos) == 1 and match_close(body, qpos[0] + 2) == len(body) - 1
+                        if (is_ts and name not in self.NOT_HELPERS and not name.startswith("iter_") and tail_ok
+                                and not re.search(r"\b(if|match|for|while|loop|return)\b", outside)):
+                            params = []
+                            for part in split_top(ts[j + 1:pe], ","):
+                                if part and part[0].kind == "ident" and len(part) > 2 and part[1].text == ":":
+                                    params.append((part[0].text, text_of(part[2:])))
+                                elif part and text_of(part) not in ("& self", "self"):
+                                    params = None
+                                    break
+                            if params is not None:
+                                self._helpers[name] = (rel, params, body, (i, be))
+                        i = be + 1
+                        continue
+                i += 1
+        return self._helpers
+
+    def inline_helpers(self, ts, rel):
+        """replace a call of a template helper by a block holding its body (a `quote!` argument is substituted for the
+        parameter it is bound to), and drop the helper's own definition from the file"""
+        helpers = self.helper_fns()
+        if not helpers:
+            return ts
+        import copy
+        # drop definitions located in this file (walk back over attributes / doc / visibility in front of `fn`)
+        drops = sorted((span for name, (r, _, _, span) in helpers.items() if r == rel), reverse=True)
+        for a, b in drops:
+            while a > 0 and ts[a - 1].text in ("pub", ")", "crate", "(", "super") :
+                a -= 1
+            ts = ts[:a] + ts[b + 1:]
+        out = []
+        i = 0
+        n = len(ts)
+        while i < n:
+            t = ts[i]
+            if t.kind == "ident" and t.text in helpers and i + 1 < n and ts[i + 1].text == "(" and (i == 0 or ts[i - 1].text != "fn"):
+                _, params, body, _ = helpers[t.text]
+                e = match_close(ts, i + 1)
+                args = [a for a in split_top(ts[i + 2:e], ",") if a]
+                if len(args) != len(params):
+                    raise TranslateError(f"src/{rel}:{t.line}: call of template helper `{t.text}` with {len(args)} arguments")
+                subst = {}
+                for (pn, pty), a in zip(params, args):
+                    at = text_of(a)
+                    if at in (pn, "& " + pn, "self", "& self"):
+                        continue
+                    if len(a) > 3 and a[0].text == "quote" and a[1].text == "!" and match_close(a, 2) == len(a) - 1:
+                        subst[pn] = a[3:-1]
+                        continue
+                    if at.replace("& ", "").replace("self . ", "") == pn:
+                        continue
+                    raise TranslateError(f"src/{rel}:{t.line}: argument `{at}` of template helper `{t.text}` (parameter `{pn}`)")
+                b2 = []
+                k = 0
+                while k < len(body):
+                    if body[k].text == "#" and k + 1 < len(body) and body[k + 1].text in subst:
+                        b2 += copy.deepcopy(subst[body[k + 1].text])
+                        k += 2
+                    else:
+                        b2.append(copy.copy(body[k]))
+                        k += 1
+                # remove a path in front of the call (`Self::`, `crate::feature::x::`)
+                while len(out) >= 2 and out[-1].text == "::" and out[-2].kind == "ident":
+                    out = out[:-2]
+                from rustlex import Tok
+                out += [Tok("punct", "{", t.line)] + b2 + [Tok("punct", "}", t.line)]
+                i = e + 1
+                continue
+            out.append(t)
+            i += 1
+        return out
+
+    def inline_fragments(self, ts, rel):
+        """`let X = quote!{F};` (or a block ending in one) whose `#X` is spliced into later templates of the same function:
+        put F where `#X` stands and empty the fragment's own `quote!`"""
+        import copy
+        n = len(ts)
+        i = 0
+        edits = []
+        while i < n - 4:
+            if ts[i].text == "let" and ts[i + 1].kind == "ident" and ts[i + 2].text == "=":
+                name = ts[i + 1].text
+                j = i + 3
+                frag = None
+                stmt_end = None
+                if ts[j].text == "quote" and ts[j + 1].text == "!":
+                    e = match_close(ts, j + 2)
+                    if e + 1 < n and ts[e + 1].text == ";":
+                        frag = (j + 2, e)
+                        stmt_end = e + 1
+                elif ts[j].text == "{":
+                    e = match_close(ts, j)
+                    # block whose last expression is a quote!
+                    q = [k for k in range(j, e) if ts[k].text == "quote" and ts[k + 1].text == "!"]
+                    if len(q) == 1 and match_close(ts, q[0] + 2) == e - 1 and e + 1 < n and ts[e + 1].text == ";":
+                        frag = (q[0] + 2, e - 1)
+                        stmt_end = e + 1
+                if frag:
+                    # to the end of the enclosing block: scan forward tracking depth
+                    depth = 0
+                    k = stmt_end + 1
+                    uses = []
+                    while k < n:
+                        x = ts[k].text
+                        depth += (x in ("{", "(", "[")) - (x in ("}", ")", "]"))
+                        if depth < 0:
+                            break
+                        if x == "#" and k + 1 < n and ts[k + 1].text == name and not (k >= 2 and ts[k - 1].text == "(" and ts[k - 2].text == "#"):
+                            uses.append(k)
+                        k += 1
+                    if uses:
+                        edits.append((frag, uses))
+            i += 1
+        if not edits:
+            return ts
+        if len(edits) > 8:
+            raise TranslateError(f"src/{rel}: too many template fragments")
+        # apply from the back so that indices stay valid
+        ops = []
+        for (a, b), uses in edits:
+            body = ts[a + 1:b]
+            for u in uses:
+                ops.append((u, u + 2, body))
+            ops.append((a + 1, b, []))
+        ops.sort(key=lambda o: o[0], reverse=True)
+        for a, b, body in ops:
+            ts = ts[:a] + [copy.copy(x) for x in body] + ts[b:]
+        return ts
+
+    # (feature field of `Features`, kind) -> the name the rest of the translator uses for it
+    CANON = {("as_str_fn", "name"): "ident_as_str", ("from_str_fn", "name"): "ident_from_str_fn", ("iter", "name"): "ident_iter_fn",
+             ("iter", "struct_name"): "ident_iter_struct", ("max_const", "name"): "ident_max", ("min_const", "name"): "ident_min",
+             ("names", "name"): "ident_names_fn", ("names", "struct_name"): "ident_names_struct", ("next_fn", "name"): "ident_next",
+             ("next_back_fn", "name"): "ident_next_back", ("range_fn", "name"): "ident_range_fn", ("into_fn", "name"): "ident_to_fn",
+             ("try_from_fn", "name"): "ident_try_from_fn", ("__ENUM", "lit"): "ident_table_enum", ("__NAME", "lit"): "ident_table_name",
+             ("__RANGES", "lit"): "ident_table_range"}
+
+    def names_rename(self):
+        if getattr(self, "_rename", None) is not None:
+            return self._rename
+        self._rename = {}
+        rel = "generator/names.rs"
+        ts = self.raw_toks(rel)
+        # the struct literal `Self { field: expr, … }` of `Names::new`
+        roles = {}
+        i = next((k for k in range(len(ts) - 3) if ts[k].text == "Self" and ts[k + 1].text == "{" and ts[k + 2].kind == "ident"
+                  and ts[k + 3].text == ":"), None)
+        if i is None:
+            raise TranslateError(f"src/{rel}: `Names::new` does not build `Self {{ .. }}`")
+        e = match_close(ts, i + 1)
+        for part in split_top(ts[i + 2:e], ","):
+            if len(part) < 3 or part[1].text != ":":
+                raise TranslateError(f"src/{rel}:{part[0].line if part else 0}: field initialiser not of the form `name: expr`")
+            field, expr = part[0].text, text_of(part[2:])
+            m = re.findall(r"features \. (\w+) \. (name|struct_name)", expr)
+            lits = re.findall(r'"(__\w+)"', expr)
+            if len(set(m)) == 1 and not lits:
+                role = m[0]
+            elif len(lits) == 1 and not m:
+                role = (lits[0], "lit")
+            else:
+                raise TranslateError(f"src/{rel}:{part[0].line}: cannot tell which item `{field}` names (`{expr[:80]}`)")
+            if role not in self.CANON:
+                raise TranslateError(f"src/{rel}:{part[0].line}: `{field}` names an item the model does not know ({role})")
+            if role in roles:
+                raise TranslateError(f"src/{rel}:{part[0].line}: two fields name the same item {role}")
+            if role[1] == "struct_name":
+                sfx = {"iter": "Iter", "names": "Names"}[role[0]]
+                if f'Iter"' not in text_of(ts) or f'Names"' not in text_of(ts) or f'{sfx}"' not in expr:
+                    raise TranslateError(f"src/{rel}:{part[0].line}: default struct name of `{field}` is no longer EnumName+{sfx}")
+            roles[role] = field
+        missing = [r for r in self.CANON if r not in roles]
+        if missing:
+            raise TranslateError(f"src/{rel}: no field of `Names` for {missing}")
+        ren = {actual: self.CANON[role] for role, actual in roles.items() if actual != self.CANON[role]}
+        clash = set(ren.values()) & set(roles.values()) - set(ren)
+        if clash:
+            raise TranslateError(f"src/{rel}: field names {sorted(clash)} are used for other items than usual")
+        self._rename = ren
+        return ren
 
     def feature_file(self, field):
         for rel in (f"feature/{field}.rs", f"feature/{field}/mod.rs"):
@@ -261,6 +497,8 @@ def tr_expr(toks, rel, lets):
         return f"m.{MODE_FIELD[f]}"
     s = re.sub(r"self . (\w+) . mode", md, s)
 
+    s = re.sub(r"usize :: from \( (\w+) \)", r"(if \1 then 1 else 0)", s)
+
     def var(m):
         return "." + MODE_VARIANT[m.group(2)] if m.group(2) in MODE_VARIANT else m.group(0)
     s = re.sub(r"(\w+) :: (\w+)", var, s)
@@ -268,7 +506,7 @@ def tr_expr(toks, rel, lets):
     leftover = re.findall(r"[A-Za-z_][A-Za-z0-9_.]*", s)
     for w in leftover:
         base = w.split(".")[0]
-        if base in ("fl", "m", "sh", "contains") or w.startswith(".") or base in lets or w in MODE_VARIANT.values():
+        if base in ("fl", "m", "sh", "contains", "if", "then", "else") or w.startswith(".") or base in lets or w in MODE_VARIANT.values():
             continue
         if re.fullmatch(r"\d+", w):
             continue
@@ -363,11 +601,58 @@ def tr_field_value(nodes, field, rel, lets):
         return "." + MODE_VARIANT[m.group(3)]
     if isinstance(n, If):
         c = tr_expr(n.cond, rel, lets)
-        for other in re.findall(r"\bm\.(\w+)", c):
+        reads = set(re.findall(r"\bm\.(\w+)", c))
+        for w in re.findall(r"[A-Za-z_]\w*", c):
+            reads |= LET_MODE_READS.get(w, set())
+        for other in reads:
             if other != field:
                 err(rel, n.line, f"the choice of `{field}` reads another feature's mode (`{other}`)")
         return f"(if {c} then {tr_field_value(n.then, field, rel, lets)} else {tr_field_value(n.els, field, rel, lets)})"
     err(rel, n.line, "unsupported construct in resolve_auto")
+
+
+LET_MODE_READS = {}     # let-bound name -> mode fields its definition reads (transitively)
+
+
+def push_assign_into_if(nodes):
+    """`self.X.mode = if c { A } else { B };`  ==>  `if c { self.X.mode = A; } else { self.X.mode = B; }`"""
+    from rustlex import Tok
+
+    def rewrite(branch, lhs, semi):
+        if len(branch) == 1 and isinstance(branch[0], Stmt) and re.fullmatch(r"\w+ :: \w+", text_of(branch[0].toks)):
+            return [Stmt(lhs + branch[0].toks + [semi], branch[0].line)]
+        if len(branch) == 1 and isinstance(branch[0], If):
+            n = branch[0]
+            return [If(n.cond, rewrite(n.then, lhs, semi), rewrite(n.els, lhs, semi), n.line)]
+        raise TranslateError(f"line {branch[0].line if branch else 0}: branch of an assigned if-expression is not a mode value")
+    out = []
+    i = 0
+    while i < len(nodes):
+        n = nodes[i]
+        if (isinstance(n, Stmt) and re.fullmatch(r"self \. \w+ \. mode =", text_of(n.toks)) and i + 2 < len(nodes)
+                and isinstance(nodes[i + 1], If) and isinstance(nodes[i + 2], Stmt) and text_of(nodes[i + 2].toks) == ";"):
+            f = nodes[i + 1]
+            semi = nodes[i + 2].toks[0]
+            out.append(If(f.cond, rewrite(f.then, n.toks, semi), rewrite(f.els, n.toks, semi), f.line))
+            i += 3
+            continue
+        if isinstance(n, If):
+            n = If(n.cond, push_assign_into_if(n.then), push_assign_into_if(n.els), n.line)
+        out.append(n)
+        i += 1
+    return out
+
+
+def flags_set_in(nodes):
+    out = set()
+    for n in nodes:
+        if isinstance(n, Stmt):
+            m = re.fullmatch(r"self . (\w+) . enabled = true ;", text_of(n.toks))
+            if m:
+                out.add(FIELD_FLAG[m.group(1)])
+        elif isinstance(n, If):
+            out |= flags_set_in(n.then) | flags_set_in(n.els)
+    return out
 
 
 def tr_block(nodes, rel, lets, indent):
@@ -375,13 +660,25 @@ def tr_block(nodes, rel, lets, indent):
     pad = "  " * indent
     out = []
     fields = {}
-    for n in nodes:
+    nodes = push_assign_into_if(nodes)
+    LET_MODE_READS.clear()
+    for idx, n in enumerate(nodes):
         if isinstance(n, Stmt):
             s = text_of(n.toks)
             m = re.fullmatch(r"let (\w+) = (.*) ;", s)
             if m:
                 lets.add(m.group(1))
-                out.append(f"{pad}let {m.group(1)} := {tr_expr(n.toks[3:-1], rel, lets)}"); continue
+                ex = tr_expr(n.toks[3:-1], rel, lets)
+                # `autoModes` evaluates every `let` over the flags as they are at the end: a `let` must not read a flag set later
+                later = flags_set_in(nodes[idx + 1:])
+                for fl_read in re.findall(r"fl\.contains \.(\w+)", ex):
+                    if fl_read in later:
+                        err(rel, n.line, f"`{m.group(1)}` reads the flag `{fl_read}` before resolve_auto sets it")
+                rd = set(re.findall(r"\bm\.(\w+)", ex))
+                for w in re.findall(r"[A-Za-z_]\w*", ex):
+                    rd |= LET_MODE_READS.get(w, set())
+                LET_MODE_READS[m.group(1)] = rd
+                out.append(f"{pad}let {m.group(1)} := {ex}"); continue
             if assigned([n]) == {"fl"}:
                 if fields:
                     err(rel, n.line, "a flag is set after a mode was chosen")
@@ -406,7 +703,8 @@ def tr_block(nodes, rel, lets, indent):
         else:
             err(rel, n.line, "unsupported construct in resolve_auto")
     lit = ", ".join(f"{f} := {fields.get(f, 'm.' + f)}" for f in ("asStr", "fromStrFn", "fromStrTrait", "iter"))
-    flag_lines = [l for l in out if l.strip().startswith("let fl :=")]
+    last_flag = max((k for k, l in enumerate(out) if l.strip().startswith("let fl :=")), default=-1)
+    flag_lines = out[:last_flag + 1]          # the `let`s in front of a flag assignment belong to it
     let_lines = [l for l in out if not l.strip().startswith("let fl :=")]
     res = ["/-- the flags `resolve_auto` sets -/", "def autoFlags (sh : Shape) (fl : Flags) (m : Modes) : Flags :="]
     res += flag_lines + [f"{pad}fl", "",
@@ -499,11 +797,22 @@ def gen_catalog(src):
         if "mode" in strs:
             # the arms of the match on the mode string
             mm = re.search(r'get_str_opt \( "mode" \) . unwrap_or_else \( \|\| "(\w+)" . to_string \( \) \) . as_str \( \) \{(.*?)_ =>', body, re.S)
-            if not mm:
-                err(rel, found[1][0].line, "mode match not recognised")
-            if mm.group(1) != "auto":
-                err(rel, found[1][0].line, "default mode is not auto")
-            modes = re.findall(r'"(\w+)" =>', mm.group(2))
+            if mm:
+                if mm.group(1) != "auto":
+                    err(rel, found[1][0].line, "default mode is not auto")
+                modes = re.findall(r'"(\w+)" =>', mm.group(2))
+            else:
+                # `match params.get_str_opt("mode").as_deref() { None | Some("auto") => …, Some("x") => …, Some(_) => error }`
+                m2 = re.search(r'get_str_opt \( "mode" \) . as_deref \( \) \{(.*?)Some \( _ \) =>', body, re.S)
+                if not m2:
+                    err(rel, found[1][0].line, "mode match not recognised")
+                arms = m2.group(1)
+                dm = re.search(r'None \| Some \( "(\w+)" \) =>|Some \( "(\w+)" \) \| None =>', arms)
+                if not dm or (dm.group(1) or dm.group(2)) != "auto":
+                    err(rel, found[1][0].line, "default mode is not auto")
+                if re.search(r'(?<!\| )None =>', arms.replace(dm.group(0), "")):
+                    err(rel, found[1][0].line, "a second arm for the missing mode")
+                modes = re.findall(r'Some \( "(\w+)" \)', arms)
             if "invalid mode" not in body:
                 err(rel, found[1][0].line, "the fallback arm of the mode match does not emit an error")
         if "params . finish (" not in body and "params . finish(" not in body:
